@@ -31,27 +31,55 @@ Definition d_c14_gslb (i : val) : option (list (str * Z)) :=
   | _ => None
   end.
 
-(* op 3: reload-history independence of the balancer.  A, B sub-cluster maps, probes = (key, murmur3.Sum64 key) *)
-Definition d_c14_reload (i : val) : option (list (str * Z) * list (str * Z) * list Z) :=
-  match i with
-  | VL [VZ 3; VZ _; a; b; ps] =>
-      do a' <- d_list (d_pair as_B as_Z) a; do b' <- d_list (d_pair as_B as_Z) b;
-      do ps' <- d_list (d_pair as_B as_Z) ps; Some (a', b', map snd ps')
+(* op 3: reload-history independence of the balancer.
+   [3 K [sticky strategy] A B probes] ; A, B = [[sub weight [[bname addr port bweight] ...]] ...] ; probes = [[key murmur64] ...] *)
+Definition d_bk (v : val) : option bk :=
+  match v with
+  | VL [VB n; VB a; VZ p; VZ w] => Some {| b_name := n; b_addr := a; b_port := p; b_weight := w |}
   | _ => None
   end.
-Definition bk_prefix : str := [98; 107; 95].     (* every sub-cluster N has the single backend "bk_N" *)
+Definition d_sub (v : val) : option (str * Z * list bk) :=
+  match v with
+  | VL [VB n; VZ w; bks] => do bks' <- d_list d_bk bks; Some (n, w, bks')
+  | _ => None
+  end.
+Record reload_case := { rc_sticky : bool; rc_a : list (str * Z * list bk); rc_b : list (str * Z * list bk); rc_hashes : list Z }.
+Definition d_c14_reload (i : val) : option reload_case :=
+  match i with
+  | VL [VZ 3; VZ _; VL [VZ st; VZ _]; a; b; ps] =>
+      do a' <- d_list d_sub a; do b' <- d_list d_sub b;
+      do ps' <- d_list (d_pair as_B as_Z) ps;
+      Some {| rc_sticky := negb (st =? 0); rc_a := a'; rc_b := b'; rc_hashes := map snd ps' |}
+  | _ => None
+  end.
+Definition weights_of (l : list (str * Z * list bk)) : list (str * Z) := map fst l.
+Definition backends_of (l : list (str * Z * list bk)) (sub : str) : list bk :=
+  match assoc sub (map (fun e => (fst (fst e), snd e)) l) with Some b => b | None => [] end.
 Definition v_state (st : list (str * Z) * Z * bool * Z) : val :=
   let '(s, total, single, av) := st in
   VL [VL (map (fun e => VL [VB (fst e); VZ (snd e)]) s); VZ total; VZ (if single then 1 else 0); VZ av].
-Definition v_picks (st : list (str * Z) * Z * bool * Z) (hs : list Z) : val :=
-  VL (map (fun h => let n := gslb_pick st h in VL [VB n; VB (bk_prefix ++ n)]) hs).
-Definition v_reload (a b : list (str * Z)) (hs : list Z) : val :=
-  match gslb_fresh b with
+(* per sub-cluster (in the balancer's order) the backend inventory *)
+Definition v_inventory (st : list (str * Z) * Z * bool * Z) (b : list (str * Z * list bk)) : val :=
+  let '(s, _, _, _) := st in
+  VL (map (fun e => VL (map (fun x => VL [VB (fst x); VZ (snd x)]) (bk_inventory (backends_of b (fst e))))) s).
+(* per key: sub-cluster chosen by subClusterBalance and, in session-sticky mode, backend chosen by stickyBalance *)
+Definition v_picks (sticky : bool) (st : list (str * Z) * Z * bool * Z) (b : list (str * Z * list bk)) (hs : list Z) : val :=
+  VL (map (fun h => let n := gslb_pick st h in
+                    if sticky then
+                      match sticky_pick (backends_of b n) h with
+                      | Some k => VL [VB n; VB (b_name k); VB (addr_info k)]
+                      | None => VL [VB n; VB []; VB []]
+                      end
+                    else VL [VB n; VB []; VB []]) hs).
+Definition v_half (sticky : bool) st (b : list (str * Z * list bk)) (hs : list Z) : val :=
+  VL [v_state st; v_inventory st b; v_picks sticky st b hs].
+Definition v_reload (c : reload_case) : val :=
+  match gslb_fresh (weights_of (rc_b c)) with
   | None => VErr 2
   | Some f =>
-      if pos_total a =? 0 then VErr 1
-      else match gslb_after_reload a b with
-           | Some h => VL [v_state f; v_state h; v_picks f hs; v_picks h hs]
+      if pos_total (weights_of (rc_a c)) =? 0 then VErr 1
+      else match gslb_after_reload (weights_of (rc_a c)) (weights_of (rc_b c)) with
+           | Some h => VL [v_half (rc_sticky c) f (rc_b c) (rc_hashes c); v_half (rc_sticky c) h (rc_b c) (rc_hashes c)]
            | None => VErr 2
            end
   end.
@@ -63,7 +91,7 @@ Definition run_C14 (i : val) : val :=
   | None => match d_c14_gslb i with
             | Some conf => VL [v_gslb conf]
             | None => match d_c14_reload i with
-                      | Some (a, b, hs) => VL [v_reload a b hs]
+                      | Some c => VL [v_reload c]
                       | None => VErr 0
                       end
             end
@@ -126,7 +154,8 @@ Definition agree_C14 (i o : val) : bool :=
   end.
 
 (* THE PROPERTY: over all loads of the same files exactly one behaviour was observed (and it is not a crash) *)
-(* for op 3 additionally: the state and every routing decision after (load A; reload B) equal those of a fresh load of B *)
+(* for op 3 additionally: state, backend inventory and every routing decision after (load A; reload B) equal those of a
+   fresh load of B *)
 Definition prop_C14 (i o : val) : bool :=
   match o with
   | VL [x] =>
@@ -134,8 +163,8 @@ Definition prop_C14 (i o : val) : bool :=
       | VL [VZ (-2)] => false
       | VL l =>
           match d_c14_reload i, l with
-          | Some _, [sf; sh; pf; ph] => val_eqb sf sh && val_eqb pf ph
           | Some _, [VZ (-1); VZ _] => true          (* A or B is not a loadable configuration *)
+          | Some _, [fresh; hist] => val_eqb fresh hist
           | Some _, _ => false
           | None, _ => true
           end
